@@ -80,6 +80,116 @@ def classify_match(m):
     return False, "no Err arm"
 
 
+def consumers(F, g, p, b):
+    """[(key, ok, detail, location)] for every io::Result producer in b"""
+    out = []
+    par = parents(b)
+    k = 0
+    # locals bound to an io::Result (directly or through Ok(..)? of a match)
+    for x in H.walk(b):
+        if not is_io_result(x):
+            continue
+        if H.is_try(par.get(id(x)) or {}):
+            continue
+        key = "%s#%d %s" % (p, k, H.last(x.get("callee") or x.get("m") or "?"))
+        k += 1
+        pa = par.get(id(x))
+        loc = F.loc(g, x.get("line"))
+        kind = pa.get("k") if pa else None
+        ok, det = False, "unrecognised consumer: %s" % kind
+        if kind == "match" and not H.is_try(pa) and pa["scrut"] is x:
+            ok, det = classify_match(pa)
+        elif kind == "let" and "pat" in pa and pa.get("init") is x and pa["pat"].get("k") == "ts":
+            # if let Err(e) = <call> { return Ok(error object) }
+            gp = par.get(id(pa))
+            pat = pa["pat"]
+            if H.last(pat["res"].get("path")) == "Err" and gp and gp.get("k") == "if":
+                ev = pat["pats"][0].get("name") if pat["pats"] and pat["pats"][0].get("k") == "bind" else None
+                ok = bool(ev) and err_arm_ok(gp["t"], ev) and H.diverges(gp["t"])
+                det = "if let Err(%s) = .. returns Object::Err(ErrorObj::IO(%s))" % (ev, ev) if ok else "if-let Err branch does not return an error object"
+        elif kind == "let" and pa.get("init") is x and pa.get("pat", {}).get("k") == "bind":
+            # let file = <call>; match file { .. }
+            lid = pa["pat"]["id"]
+            ms = [m for m in H.walk(b) if m.get("k") == "match" and not H.is_try(m) and H.local_id(H.strip(m["scrut"])) == lid]
+            if len(ms) == 1:
+                ok, det = classify_match(ms[0])
+                det = "bound to `%s`, then: %s" % (pa["pat"]["name"], det)
+            else:
+                det = "bound to `%s` and matched %d times" % (pa["pat"]["name"], len(ms))
+                if not ms:
+                    # handed to a helper of the repository that does the matching (`writer_handle_or_error(file)`)
+                    for c2 in H.walk(b):
+                        if c2.get("k") in ("call", "mcall") and c2.get("callee") in F.fns and any(H.local_id(H.strip(a2)) == lid for a2 in c2.get("args", [])):
+                            inl = H.inline_helpers(F, c2, depth=1)
+                            ms2 = [m for m in H.walk(inl) if m.get("k") == "match" and not H.is_try(m) and H.local_id(H.strip(m["scrut"])) == lid]
+                            if len(ms2) == 1:
+                                ok, det = classify_match(ms2[0])
+                                det = "bound to `%s`, handed to %s, there: %s" % (pa["pat"]["name"], H.last(c2["callee"]), det)
+        elif kind == "match" and not H.is_try(pa) and pa["scrut"] is not x:
+            # value of a match arm: follow the enclosing let binding to where it is matched
+            cur = pa
+            while cur is not None and not (cur.get("k") == "let" and cur.get("pat", {}).get("k") == "bind"):
+                cur = par.get(id(cur))
+            if cur is not None:
+                lid = cur["pat"]["id"]
+                ms = [m for m in H.walk(b) if m.get("k") == "match" and not H.is_try(m) and H.local_id(H.strip(m["scrut"])) == lid]
+                if len(ms) == 1:
+                    ok, det = classify_match(ms[0])
+                    det = "value of a match arm bound to `%s`, then: %s" % (cur["pat"]["name"], det)
+        elif kind == "call" and H.last(pa.get("ctor", "")) == "Ok":
+            # Ok(<io result>) as the value of a match that is `?`-ed into a local, which is then matched
+            cur = pa
+            while cur is not None and not (cur.get("k") == "let" and cur.get("pat", {}).get("k") == "bind"):
+                cur = par.get(id(cur))
+            if cur is not None:
+                lid = cur["pat"]["id"]
+                ms = [m for m in H.walk(b) if m.get("k") == "match" and not H.is_try(m) and H.local_id(H.strip(m["scrut"])) == lid]
+                if len(ms) == 1:
+                    ok, det = classify_match(ms[0])
+                    det = "wrapped in Ok(..), bound to `%s`, then: %s" % (cur["pat"]["name"], det)
+        elif kind == "mcall" and pa["m"] in ("expect", "unwrap", "unwrap_or", "unwrap_or_default", "ok", "map_err", "unwrap_or_else", "is_ok", "is_err"):
+            det = ".%s() on an io::Result: %s" % (pa["m"], "aborts the interpreter" if pa["m"] in ("expect", "unwrap") else "drops or rewrites the error")
+        elif kind in ("block",) or kind is None:
+            # statement position (dropped) or tail value of a helper returning io::Result
+            det = "result is dropped"
+            # ... unless it is the value of the block / arm / branch, and that value is bound to a local that is matched
+            cur = x
+            while True:
+                up = par.get(id(cur))
+                if up is None:
+                    break
+                uk = up.get("k")
+                if (uk == "block" and up.get("expr") is cur) or (uk == "match" and not H.is_try(up) and up["scrut"] is not cur) or \
+                        (uk == "if" and (up.get("t") is cur or up.get("e") is cur)):
+                    cur = up
+                    continue
+                break
+            if cur is not x and up is not None and up.get("k") == "let" and up.get("init") is cur and up.get("pat", {}).get("k") == "bind":
+                lid = up["pat"]["id"]
+                ms = [m for m in H.walk(b) if m.get("k") == "match" and not H.is_try(m) and H.local_id(H.strip(m["scrut"])) == lid]
+                if len(ms) == 1:
+                    ok, det = classify_match(ms[0])
+                    det = "value of a block bound to `%s`, then: %s" % (up["pat"]["name"], det)
+        if not ok:
+            # the value of a conditional (an arm of a match, a branch, a block) that is itself what a match examines
+            cur = x
+            while True:
+                up = par.get(id(cur))
+                if up is None:
+                    break
+                uk = up.get("k")
+                if (uk == "block" and up.get("expr") is cur) or (uk == "match" and not H.is_try(up) and up["scrut"] is not cur) or \
+                        (uk == "if" and (up.get("t") is cur or up.get("e") is cur)):
+                    cur = up
+                    continue
+                break
+            if cur is not x and up is not None and up.get("k") == "match" and not H.is_try(up) and up["scrut"] is cur:
+                ok, det = classify_match(up)
+                det = "value of a conditional that is matched: " + det
+        out.append((key, ok, det, loc))
+    return out
+
+
 def run(F, R, tier):
     global _F
     _F = F
@@ -99,94 +209,20 @@ def run(F, R, tier):
         b = H.body_of(g)
         if b is None:
             continue
-        par = parents(b)
-        k = 0
-        # locals bound to an io::Result (directly or through Ok(..)? of a match)
-        for x in H.walk(b):
-            if not is_io_result(x):
-                continue
-            if H.is_try(par.get(id(x)) or {}):
-                continue
-            n_sites += 1
-            key = "%s#%d %s" % (p, k, H.last(x.get("callee") or x.get("m") or "?"))
-            k += 1
-            pa = par.get(id(x))
-            loc = F.loc(g, x.get("line"))
-            kind = pa.get("k") if pa else None
-            ok, det = False, "unrecognised consumer: %s" % kind
-            if kind == "match" and not H.is_try(pa) and pa["scrut"] is x:
-                ok, det = classify_match(pa)
-            elif kind == "let" and "pat" in pa and pa.get("init") is x and pa["pat"].get("k") == "ts":
-                # if let Err(e) = <call> { return Ok(error object) }
-                gp = par.get(id(pa))
-                pat = pa["pat"]
-                if H.last(pat["res"].get("path")) == "Err" and gp and gp.get("k") == "if":
-                    ev = pat["pats"][0].get("name") if pat["pats"] and pat["pats"][0].get("k") == "bind" else None
-                    ok = bool(ev) and err_arm_ok(gp["t"], ev) and H.diverges(gp["t"])
-                    det = "if let Err(%s) = .. returns Object::Err(ErrorObj::IO(%s))" % (ev, ev) if ok else "if-let Err branch does not return an error object"
-            elif kind == "let" and pa.get("init") is x and pa.get("pat", {}).get("k") == "bind":
-                # let file = <call>; match file { .. }
-                lid = pa["pat"]["id"]
-                ms = [m for m in H.walk(b) if m.get("k") == "match" and not H.is_try(m) and H.local_id(H.strip(m["scrut"])) == lid]
-                if len(ms) == 1:
-                    ok, det = classify_match(ms[0])
-                    det = "bound to `%s`, then: %s" % (pa["pat"]["name"], det)
-                else:
-                    det = "bound to `%s` and matched %d times" % (pa["pat"]["name"], len(ms))
-                    if not ms:
-                        # handed to a helper of the repository that does the matching (`writer_handle_or_error(file)`)
-                        for c2 in H.walk(b):
-                            if c2.get("k") in ("call", "mcall") and c2.get("callee") in F.fns and any(H.local_id(H.strip(a2)) == lid for a2 in c2.get("args", [])):
-                                inl = H.inline_helpers(F, c2, depth=1)
-                                ms2 = [m for m in H.walk(inl) if m.get("k") == "match" and not H.is_try(m) and H.local_id(H.strip(m["scrut"])) == lid]
-                                if len(ms2) == 1:
-                                    ok, det = classify_match(ms2[0])
-                                    det = "bound to `%s`, handed to %s, there: %s" % (pa["pat"]["name"], H.last(c2["callee"]), det)
-            elif kind == "match" and not H.is_try(pa) and pa["scrut"] is not x:
-                # value of a match arm: follow the enclosing let binding to where it is matched
-                cur = pa
-                while cur is not None and not (cur.get("k") == "let" and cur.get("pat", {}).get("k") == "bind"):
-                    cur = par.get(id(cur))
-                if cur is not None:
-                    lid = cur["pat"]["id"]
-                    ms = [m for m in H.walk(b) if m.get("k") == "match" and not H.is_try(m) and H.local_id(H.strip(m["scrut"])) == lid]
-                    if len(ms) == 1:
-                        ok, det = classify_match(ms[0])
-                        det = "value of a match arm bound to `%s`, then: %s" % (cur["pat"]["name"], det)
-            elif kind == "call" and H.last(pa.get("ctor", "")) == "Ok":
-                # Ok(<io result>) as the value of a match that is `?`-ed into a local, which is then matched
-                cur = pa
-                while cur is not None and not (cur.get("k") == "let" and cur.get("pat", {}).get("k") == "bind"):
-                    cur = par.get(id(cur))
-                if cur is not None:
-                    lid = cur["pat"]["id"]
-                    ms = [m for m in H.walk(b) if m.get("k") == "match" and not H.is_try(m) and H.local_id(H.strip(m["scrut"])) == lid]
-                    if len(ms) == 1:
-                        ok, det = classify_match(ms[0])
-                        det = "wrapped in Ok(..), bound to `%s`, then: %s" % (cur["pat"]["name"], det)
-            elif kind == "mcall" and pa["m"] in ("expect", "unwrap", "unwrap_or", "unwrap_or_default", "ok", "map_err", "unwrap_or_else", "is_ok", "is_err"):
-                det = ".%s() on an io::Result: %s" % (pa["m"], "aborts the interpreter" if pa["m"] in ("expect", "unwrap") else "drops or rewrites the error")
-            elif kind in ("block",) or kind is None:
-                # statement position (dropped) or tail value of a helper returning io::Result
-                det = "result is dropped"
-                # ... unless it is the value of the block / arm / branch, and that value is bound to a local that is matched
-                cur = x
-                while True:
-                    up = par.get(id(cur))
-                    if up is None:
-                        break
-                    uk = up.get("k")
-                    if (uk == "block" and up.get("expr") is cur) or (uk == "match" and not H.is_try(up) and up["scrut"] is not cur) or \
-                            (uk == "if" and (up.get("t") is cur or up.get("e") is cur)):
-                        cur = up
-                        continue
-                    break
-                if cur is not x and up is not None and up.get("k") == "let" and up.get("init") is cur and up.get("pat", {}).get("k") == "bind":
-                    lid = up["pat"]["id"]
-                    ms = [m for m in H.walk(b) if m.get("k") == "match" and not H.is_try(m) and H.local_id(H.strip(m["scrut"])) == lid]
-                    if len(ms) == 1:
-                        ok, det = classify_match(ms[0])
-                        det = "value of a block bound to `%s`, then: %s" % (up["pat"]["name"], det)
+        res = consumers(F, g, p, b)
+        if any(not r[1] for r in res):
+            # second reading, in normal form: the function's helpers inlined, function values applied, named intermediates
+            # substituted (`Ok(io_result_object(fs::File::open(path), reader_object))` is then the match the helper does)
+            def keep_(c):
+                # not the builtins themselves, nor what produces an io::Result of its own (those are sites, not plumbing)
+                gc = F.fns.get(c) or {}
+                rt = ((gc.get("mir") or {}).get("locals") or [{}])[0].get("ty", "")
+                return c in tab.values() or "std::io::Error" in rt or gc.get("file") != g["file"]
+            res2 = consumers(F, g, p, H.beta(H.unlet(H.split_tuple_lets(H.inline_helpers(F, b, max_size=200, skip=keep_)))))
+            if res2 and all(r[1] for r in res2):
+                res = [(k_, o_, "in normal form: " + d_, l_) for k_, o_, d_, l_ in res2]
+        n_sites += len(res)
+        for key, ok, det, loc in res:
             R.ob("io-result-consumed", key, ok, det, loc)
     # error-discarding adaptors: `Result::ok` / `.ok()` / `.unwrap_or*()` / `.flatten()` applied to an io::Result (also as a
     # function value handed to an iterator adaptor: `bytes().map_while(Result::ok)`, `lines().filter_map(Result::ok)`)
@@ -288,6 +324,13 @@ def run(F, R, tier):
                         det = "the object returned by %s is matched without an Object::Err pass-through arm" % H.last(x["callee"])
                 R.ob("error-object-passthrough", "%s → %s" % (H.last(p), H.last(x["callee"])), ok, det, F.loc(g, x.get("line")))
     R.floor("builtin-to-builtin calls", n2, 1)
+    # ---- "never abort the interpreter": the panic-site audit over the named builtins and their helpers in functions.rs (the
+    # pcap side is audited under C19 and linked below).  On a failure path this is what finds a RefCell borrowed again
+    # while the guard taken for the write is still alive, an index into a short read, ...
+    from .lib import audit_run
+    io_roots = [tab[nm] for nm in NAMED if nm in tab]
+    A_, fns_, keys_ = audit_run.run_audit(F, R, io_roots, lambda p_, f_: f_["file"].endswith("builtins/functions.rs"), "I/O builtins", link_ops=False)
+    R.floor("I/O builtins: functions audited", len(fns_), 12)
     # ---- third rule: no print!/eprint! in the named builtins ------------------------------------------------------------------
     for nm in NAMED:
         p = tab.get(nm)
